@@ -8,6 +8,7 @@ package main
 import (
 	"bufio"
 	"context"
+	stderrors "errors"
 	"encoding/hex"
 	"fmt"
 	"os"
@@ -19,6 +20,9 @@ import (
 	"time"
 
 	"github.com/pingcap/errors"
+	"github.com/pingcap/kvproto/pkg/kvrpcpb"
+	"github.com/pingcap/log"
+	"go.uber.org/zap"
 	tikverr "github.com/tikv/client-go/v2/error"
 	"github.com/tikv/client-go/v2/internal/unionstore"
 	"github.com/tikv/client-go/v2/kv"
@@ -29,7 +33,10 @@ type flushCall struct {
 	muts [][2]string // key, value (raw bytes as strings), in iteration order
 }
 
-type outcome struct{ ok bool }
+type outcome struct {
+	ok    bool
+	exist []byte // non-nil: the flush fails with ErrKeyExist for this key
+}
 
 type harness struct {
 	p        *unionstore.PipelinedMemDB
@@ -42,7 +49,10 @@ type harness struct {
 	maxRun   int32
 	closed   bool // mirror of the flush callback's prologue/epilogue in txn.go (committer closed on first error)
 	inflight bool
-	earlyN   int // how many mutations of the next flush reach the store before it completes
+	cur      flushCall // the flush call in flight
+	pendExist *string  // an ErrKeyExist(key) failure was scripted and not yet reported: expected Value ("" = key absent)
+	plines   []string  // implementation oracle lines (P ...)
+	limit    uint64
 	handles  []int
 }
 
@@ -103,9 +113,6 @@ func newHarness(minKeys, minSize, force uint64) *harness {
 			}
 			call.muts = append(call.muts, [2]string{string(it.Key()), v})
 		}
-		for i := 0; i < h.earlyN && i < len(call.muts); i++ {
-			h.early[call.muts[i][0]] = []byte(call.muts[i][1])
-		}
 		h.enter <- call
 		o := <-h.release
 		eff := o.ok && !closedAtStart
@@ -115,11 +122,18 @@ func newHarness(minKeys, minSize, force uint64) *harness {
 			}
 		} else {
 			h.closed = true
+			// what already reached the store stays there (locks of a failed flush)
+			for k, v := range h.early {
+				h.store[k] = v
+			}
 		}
 		h.early = map[string][]byte{}
 		atomic.AddInt32(&h.running, -1)
 		if eff {
 			return nil
+		}
+		if o.exist != nil {
+			return errors.WithStack(&tikverr.ErrKeyExist{AlreadyExist: &kvrpcpb.AlreadyExist{Key: o.exist}})
 		}
 		return errors.New("scripted flush failure")
 	}
@@ -151,14 +165,51 @@ func (h *harness) fmtCalls() string {
 // (spin=false when a concurrent Flush/FlushWait is blocked on errCh: its receive is the synchronisation, and
 // Flush may set onFlushing again at once)
 func (h *harness) complete(ok bool, spin bool) {
+	h.completeWith(outcome{ok: ok}, spin)
+}
+
+func (h *harness) completeWith(o outcome, spin bool) {
 	if !h.inflight {
 		return
 	}
-	h.release <- outcome{ok}
+	if o.exist != nil && !h.closed {
+		exp := ""
+		for _, m := range h.cur.muts {
+			if m[0] == string(o.exist) {
+				exp = "v:" + m[1]
+			}
+		}
+		h.pendExist = &exp
+	}
+	h.release <- o
 	for spin && h.p.OnFlushing() {
 		runtime.Gosched()
 	}
 	h.inflight = false
+}
+
+// handleAlreadyExistErr: an ErrKeyExist coming out of the flush function is reported with the value the failed flush
+// was writing for that key
+func (h *harness) checkExist(err error) {
+	if h.pendExist == nil {
+		return
+	}
+	exp := *h.pendExist
+	h.pendExist = nil
+	var ke *tikverr.ErrKeyExist
+	if !stderrors.As(err, &ke) {
+		h.plines = append(h.plines, "P\texisterr\tnot-an-ErrKeyExist:"+err.Error()+"\tfail")
+		return
+	}
+	got := ""
+	if ke.Value != nil {
+		got = "v:" + string(ke.Value)
+	}
+	verdict := "pass"
+	if got != exp {
+		verdict = "fail"
+	}
+	h.plines = append(h.plines, fmt.Sprintf("P\texisterr\tkey=%x expected=%x got=%x\t%s", ke.GetKey(), exp, got, verdict))
 }
 
 func settle() {
@@ -188,6 +239,10 @@ func (h *harness) exec(f []string) string {
 		if err := h.p.Set(unhex(f[1]), unhex(f[2])); err != nil {
 			if err == tikverr.ErrCannotSetNilValue {
 				return "errnil"
+			}
+			var tl *tikverr.ErrEntryTooLarge
+			if stderrors.As(err, &tl) {
+				return "errlarge"
 			}
 			return "err:" + err.Error()
 		}
@@ -242,7 +297,6 @@ func (h *harness) exec(f []string) string {
 	case "flush":
 		force := f[1] == "1"
 		wo := f[3] == "1"
-		h.earlyN, _ = strconv.Atoi(f[4])
 		willWait := h.inflight && h.p.VerifPipelinedHasFlushing() && !h.p.VerifPipelinedIsStaging() && (force || h.p.VerifPipelinedNeedFlush())
 		type res struct {
 			t   bool
@@ -260,12 +314,15 @@ func (h *harness) exec(f []string) string {
 			status = "1"
 			if strings.Contains(r.err.Error(), "stages unreleased") {
 				status = "2"
+			} else {
+				h.checkExist(r.err)
 			}
 		}
 		started := "-"
 		if r.t {
 			c := <-h.enter
 			h.inflight = true
+			h.cur = c
 			started = fmtStarted(c)
 		}
 		t := "0"
@@ -276,6 +333,15 @@ func (h *harness) exec(f []string) string {
 	case "complete":
 		h.complete(f[1] == "1", true)
 		return "ok"
+	case "completeexist":
+		h.completeWith(outcome{ok: false, exist: unhex(f[1])}, true)
+		return "ok"
+	case "storestep":
+		i, _ := strconv.Atoi(f[1])
+		if h.inflight && i < len(h.cur.muts) {
+			h.early[h.cur.muts[i][0]] = []byte(h.cur.muts[i][1])
+		}
+		return "ok"
 	case "flushwait":
 		willWait := h.inflight && h.p.VerifPipelinedHasFlushing()
 		done := make(chan error, 1)
@@ -285,6 +351,7 @@ func (h *harness) exec(f []string) string {
 			h.complete(f[1] == "1", false)
 		}
 		if err := <-done; err != nil {
+			h.checkExist(err)
 			return "err"
 		}
 		return "ok"
@@ -317,6 +384,7 @@ func main() {
 		fmt.Fprintln(os.Stderr, "usage: pipelined <casefile>")
 		os.Exit(2)
 	}
+	log.ReplaceGlobals(zap.NewNop(), nil)
 	fh, err := os.Open(os.Args[1])
 	if err != nil {
 		panic(err)
@@ -338,6 +406,12 @@ func main() {
 			b, _ := strconv.ParseUint(f[3], 10, 64)
 			c, _ := strconv.ParseUint(f[4], 10, 64)
 			h = newHarness(a, b, c)
+			if len(f) > 5 {
+				if lim, _ := strconv.ParseUint(f[5], 10, 64); lim > 0 {
+					h.limit = lim
+					h.p.SetEntrySizeLimit(lim, 0)
+				}
+			}
 			fmt.Fprintln(out, strings.Join(f, "\t"))
 		case "END":
 			h.complete(true, true)
@@ -364,7 +438,18 @@ func main() {
 				}
 				f = args
 			}()
-			fmt.Fprintf(out, "OP\t%s\t=>\t%s\n", strings.Join(f, "\t"), r)
+			tag := "OP"
+			if f[0] == "set" && strings.HasPrefix(r, "errlarge") {
+				tag = "X" // refused by the entry size limit: no effect, not an op of the model
+			}
+			if f[0] == "completeexist" {
+				f = []string{"complete", "0"} // for the model an ErrKeyExist is a failed flush
+			}
+			fmt.Fprintf(out, "%s\t%s\t=>\t%s\n", tag, strings.Join(f, "\t"), r)
+			for _, pl := range h.plines {
+				fmt.Fprintln(out, pl)
+			}
+			h.plines = nil
 		}
 	}
 }
